@@ -56,6 +56,9 @@ Inductive observed :=
 | ODec (r : option (list fval * obj)) (reenc : option json)
 | ODecK (r : option fval)
 | OSchema (s : list field)
+| OSchemaX (s : list field) (unknown : list string)
+    (* the struct has JSON-visible members of a type the model has no kind for
+       (or that encoding/json drops as ambiguous): never equal to the model's answer *)
 | OPanic.
 
 Definition model (i : input) : observed :=
@@ -148,10 +151,29 @@ Fixpoint actor_sim (a a' : actor) : bool :=
       (String.eqb i "" || String.eqb i i') && (String.eqb s "" || String.eqb s s') &&
       forallb (fun kv => fold_variant actor_names (fst kv) ||
                          option_eqb json_eqb (lookup (fst kv) c') (lookup (fst kv) c)) c &&
+      (* ... and nothing was added: what a' holds beyond act / iss / sub, a held *)
+      forallb (fun kv => string_in (fst kv) actor_names ||
+                         option_eqb json_eqb (lookup (fst kv) c) (lookup (fst kv) c')) c' &&
       match x with
       | None => true
       | Some p => match x' with Some q => actor_sim p q | None => false end
       end
+  end.
+
+(* the parties of a delegation chain (RFC 8693 4.1), outermost first.  Nothing
+   says they are distinct: svc-a -> svc-b -> svc-a is a chain like any other. *)
+Fixpoint chain_ids (a : actor) : list (string * string) :=
+  match a with
+  | Actor x i s _ => (i, s) :: match x with Some p => chain_ids p | None => [] end
+  end.
+
+(* no custom claim of any actor of the chain is named like (a case variant of)
+   act / iss / sub *)
+Fixpoint actor_plain (a : actor) : bool :=
+  match a with
+  | Actor x _ _ c =>
+      forallb (fun kv => negb (fold_variant actor_names (fst kv))) c &&
+      match x with Some p => actor_plain p | None => true end
   end.
 
 Definition val_rt (v v' : fval) : bool :=
@@ -239,7 +261,11 @@ Definition spec_round (ty : tyname) (vals : list fval) (claims : obj) (o : oracl
             fields_rt ty sch vals vals' d &&
             (* custom claims whose name is no (case variant of a) registered name survive *)
             forallb (fun kv => fold_variant (map fname sch) (fst kv) ||
-                               option_eqb json_eqb (lookup (fst kv) d) (lookup (fst kv) claims)) claims
+                               option_eqb json_eqb (lookup (fst kv) d) (lookup (fst kv) claims)) claims &&
+            (* lossless also means that nothing was added: whatever the document holds
+               under a name that is not a registered one is a custom claim of the value *)
+            forallb (fun kv => string_in (fst kv) (map fname sch) ||
+                               option_eqb json_eqb (lookup (fst kv) claims) (lookup (fst kv) d)) d
         | None => unset_collision sch vals claims || any_actor_collision vals
         end
       else true
@@ -331,10 +357,13 @@ Definition spec (i : input) (o : observed) : bool :=
       else match ct with None => true | Some _ => false end
   | IOpen _ _ _, OOpen _ => true
   | IRound ty vals claims orc, ORound doc back => spec_round ty vals claims orc doc back
-  | IDec ty doc orc, ODec r _ =>
+  | IDec ty doc orc, ODec r reenc =>
       match r with
       | None => true
       | Some (vs, cl) =>
+          (* what the decoder accepted is a value of the type: "for every value"
+             Marshal writes it (the round trip starts with an encoding) *)
+          match reenc with Some (JObj _) => true | _ => false end &&
           match doc with
           | JObj d => negb (decode_domain (schema_of ty) d) ||
                       obj_eqb cl d && fields_from orc (schema_of ty) vs d
@@ -343,7 +372,7 @@ Definition spec (i : input) (o : observed) : bool :=
       end
   | IDecK k doc orc, ODecK r =>
       match r with None => true | Some v => from_doc orc k (Some doc) v end
-  | ISchema _, OSchema _ => true
+  | ISchema _, (OSchema _ | OSchemaX _ _) => true
   | _, _ => false
   end.
 
